@@ -1,12 +1,13 @@
 package main
 
-// In-process cluster: one passthrough leader and P partitions of followers, wired exactly as
+// In-process cluster: L passthrough leaders and P partitions of followers, wired exactly as
 // server/server.go wires them (DBOpts.Follow -> leader.Follow, RegisterRemoteQueryHandler ->
 // leader.RegisterQueryHandler) but without sockets.
 
 import (
 	"context"
 	"fmt"
+	"os"
 	"path/filepath"
 	"sync"
 	"sync/atomic"
@@ -24,28 +25,49 @@ type cnode struct {
 	dir       string
 	partition int
 	id        int
-	linkCut   int32 // 1 = the link to the leader is cut: deliveries fail
+	linkCut   int32 // 1 = the link to the leaders is cut: deliveries fail, no new stream can be opened
 	noQuery   int32 // 1 = its query handlers fail, 2 = they are too slow
+	slow      int32 // 1 = every delivery takes a few milliseconds longer
 	stopReg   chan struct{}
+	// what the follower announced in its Follow requests (C12: the protocol's precondition)
+	followMx      sync.Mutex
+	follows       int
+	earliestAfter []string // a table whose persisted offset is before the announced EarliestOffset
 }
 
 type cluster struct {
-	dir       string
-	t         *jTable
-	partBy    []string
-	P         int
-	leader    *zenodb.DB
-	followers []*cnode
-	mx        sync.Mutex
+	dir         string
+	t           *jTable
+	partBy      []string
+	P           int
+	L           int
+	extraTables map[string]*zenodb.TableOpts
+	leader      *zenodb.DB // leaders[0]
+	leaders     []*zenodb.DB
+	followers   []*cnode
+	mx          sync.Mutex
 }
 
 func (c *cluster) schema() zenodb.Schema {
-	return zenodb.Schema{"t": &zenodb.TableOpts{MinFlushLatency: time.Hour, MaxFlushLatency: 2 * time.Hour,
+	s := zenodb.Schema{"t": &zenodb.TableOpts{MinFlushLatency: time.Hour, MaxFlushLatency: 2 * time.Hour,
 		RetentionPeriod: time.Duration(c.t.RetNS), SQL: c.t.SQL(), PartitionBy: append([]string(nil), c.partBy...)}}
+	for name, o := range c.extraTables {
+		cp := *o
+		cp.PartitionBy = append([]string(nil), o.PartitionBy...)
+		s[name] = &cp
+	}
+	return s
 }
 
-func (c *cluster) openLeader() error {
-	db, err := zenodb.NewDB(&zenodb.DBOpts{Dir: filepath.Join(c.dir, "leader"), VirtualTime: true, Passthrough: true, ID: 0,
+func (c *cluster) leaderDir(i int) string {
+	if i == 0 {
+		return filepath.Join(c.dir, "leader")
+	}
+	return filepath.Join(c.dir, fmt.Sprintf("leader%d", i))
+}
+
+func (c *cluster) openLeaderAt(i int) error {
+	db, err := zenodb.NewDB(&zenodb.DBOpts{Dir: c.leaderDir(i), VirtualTime: true, Passthrough: true, ID: i,
 		NumPartitions: c.P, ClusterQueryConcurrency: 8, ClusterQueryTimeout: 10 * time.Second, IterationCoalesceInterval: time.Millisecond, Panic: quietPanic})
 	if err != nil {
 		return err
@@ -53,17 +75,75 @@ func (c *cluster) openLeader() error {
 	if err := db.ApplySchema(c.schema()); err != nil {
 		return err
 	}
-	c.leader = db
+	c.mx.Lock()
+	for len(c.leaders) <= i {
+		c.leaders = append(c.leaders, nil)
+	}
+	c.leaders[i] = db
+	if i == 0 {
+		c.leader = db
+	}
+	c.mx.Unlock()
 	return nil
+}
+
+func (c *cluster) openLeader() error { return c.openLeaderAt(0) }
+
+func (c *cluster) closeLeaderAt(i int) {
+	c.mx.Lock()
+	db := c.leaders[i]
+	c.leaders[i] = nil
+	if i == 0 {
+		c.leader = nil
+	}
+	c.mx.Unlock()
+	if db != nil {
+		db.Close()
+	}
+}
+
+func (c *cluster) leaderAt(i int) *zenodb.DB {
+	c.mx.Lock()
+	defer c.mx.Unlock()
+	if i < len(c.leaders) {
+		return c.leaders[i]
+	}
+	return nil
+}
+
+// noteFollow records what a Follow request announces: the protocol needs EarliestOffset not to be after the
+// persisted offset of any of the follower's tables for that leader.
+func (n *cnode) noteFollow(source int, f *common.Follow) {
+	n.followMx.Lock()
+	defer n.followMx.Unlock()
+	n.follows++
+	if os.Getenv("VERIF_DEBUG") != "" {
+		for _, p := range f.Partitions {
+			for _, t := range p.Tables {
+				fmt.Fprintf(os.Stderr, "follow #%d by node %d source %d: earliest %v table %s offsets %v\n", n.follows, n.id, source, f.EarliestOffset, t.Name, t.Offsets)
+			}
+		}
+	}
+	for _, p := range f.Partitions {
+		for _, t := range p.Tables {
+			if f.EarliestOffset != nil && f.EarliestOffset.After(t.Offsets[source]) {
+				n.earliestAfter = append(n.earliestAfter, fmt.Sprintf("%s source %d: earliest %v table %v", t.Name, source, f.EarliestOffset, t.Offsets[source]))
+			}
+		}
+	}
 }
 
 func (c *cluster) openFollower(n *cnode) error {
 	n.stopReg = make(chan struct{})
 	stopReg := n.stopReg
+	sources := make([]int, 0, c.L)
+	for i := 0; i < c.L; i++ {
+		sources = append(sources, i)
+	}
 	db, err := zenodb.NewDB(&zenodb.DBOpts{Dir: n.dir, VirtualTime: true, ID: n.id, NumPartitions: c.P, Partition: n.partition,
 		IterationCoalesceInterval: time.Millisecond, Panic: quietPanic,
 		Follow: func(ff func(sources []int) map[int]*common.Follow, insert func(data []byte, newOffset wal.Offset, source int) error) {
-			follows := ff([]int{0})
+			follows := ff(sources)
 			for source, f := range follows {
 				source, f := source, f
 				go func() {
@@ -74,17 +154,27 @@ func (c *cluster) openFollower(n *cnode) error {
 							return
 						default:
 						}
-						c.mx.Lock()
-						leader := c.leader
-						c.mx.Unlock()
-						if leader == nil {
+						leader := c.leaderAt(source)
+						if leader == nil || atomic.LoadInt32(&n.linkCut) == 1 {
 							time.Sleep(20 * time.Millisecond)
 							continue
 						}
+						n.noteFollow(source, f)
 						done := make(chan bool)
+						broken := make(chan struct{})
+						var once sync.Once
+						brk := func() { once.Do(func() { close(broken) }) }
+						var fmx sync.Mutex
+						fcopy := *f
 						go func() {
-							leader.Follow(f, func(data []byte, off wal.Offset) error {
+							leader.Follow(&fcopy, func(data []byte, off wal.Offset) error {
+								select {
+								case <-broken:
+									return fmt.Errorf("stream broken")
+								default:
+								}
 								if atomic.LoadInt32(&n.linkCut) == 1 {
+									brk() // the client side sees the stream fail as well
 									return fmt.Errorf("link cut")
 								}
 								select {
@@ -92,17 +182,50 @@ func (c *cluster) openFollower(n *cnode) error {
 									return fmt.Errorf("follower stopped")
 								default:
 								}
+								if c.leaderAt(source) != leader {
+									brk()
+									return fmt.Errorf("leader gone")
+								}
+								if atomic.LoadInt32(&n.slow) == 1 {
+									time.Sleep(3 * time.Millisecond)
+								}
 								if err := insert(data, off, source); err != nil {
+									brk()
 									return err
 								}
+								fmx.Lock()
 								f.EarliestOffset = off
+								fmx.Unlock()
 								return nil
 							})
 							close(done)
 						}()
+						// a closed leader breaks the stream
+						gone := make(chan struct{})
+						go func() {
+							for {
+								select {
+								case <-done:
+									return
+								case <-broken:
+									return
+								case <-stopReg:
+									return
+								case <-time.After(20 * time.Millisecond):
+									if c.leaderAt(source) != leader {
+										close(gone)
+										return
+									}
+								}
+							}
+						}()
 						select {
 						case <-done:
+						case <-broken:
+						case <-gone:
+							brk()
 						case <-stopReg:
+							brk()
 							return
 						}
 						time.Sleep(50 * time.Millisecond)
@@ -111,45 +234,60 @@ func (c *cluster) openFollower(n *cnode) error {
 			}
 		},
 		RegisterRemoteQueryHandler: func(db *zenodb.DB, partition int, query planner.QueryClusterFN) {
-			// a pool of registrations, as server.go keeps ClusterQueryConcurrency connections per follower
-			for w := 0; w < 4; w++ {
-				go func() {
-					for {
-						select {
-						case <-stopReg:
-							return
-						default:
-						}
-						c.mx.Lock()
-						leader := c.leader
-						c.mx.Unlock()
-						if leader == nil {
-							time.Sleep(20 * time.Millisecond)
-							continue
-						}
-						// one registration serves one query (as one gRPC stream does)
-						used := make(chan bool, 1)
-						leader.RegisterQueryHandler(partition, func(ctx context.Context, sqlString string, isSubQuery bool, subQueryResults [][]interface{}, unflat bool, onFields core.OnFields, onRow core.OnRow, onFlatRow core.OnFlatRow) (interface{}, error) {
-							defer func() { used <- true }()
-							switch atomic.LoadInt32(&n.noQuery) {
-							case 1:
-								return nil, fmt.Errorf("follower unavailable")
-							case 2: // slower than the leader is willing to wait
-								select {
-								case <-time.After(6 * time.Second):
-								case <-ctx.Done():
-								}
-								return nil, fmt.Errorf("follower too slow")
+			// a pool of registrations, as server.go keeps ClusterQueryConcurrency connections per follower and leader
+			for li := 0; li < c.L; li++ {
+				li := li
+				for w := 0; w < 4; w++ {
+					go func() {
+						for {
+							select {
+							case <-stopReg:
+								return
+							default:
 							}
-							return query(ctx, sqlString, isSubQuery, subQueryResults, unflat, onFields, onRow, onFlatRow)
-						})
-						select {
-						case <-used:
-						case <-stopReg:
-							return
+							leader := c.leaderAt(li)
+							if leader == nil {
+								time.Sleep(20 * time.Millisecond)
+								continue
+							}
+							// one registration serves one query (as one gRPC stream does)
+							used := make(chan bool, 1)
+							leader.RegisterQueryHandler(partition, func(ctx context.Context, sqlString string, isSubQuery bool, subQueryResults [][]interface{}, unflat bool, onFields core.OnFields, onRow core.OnRow, onFlatRow core.OnFlatRow) (interface{}, error) {
+								defer func() { used <- true }()
+								select {
+								case <-stopReg:
+									return nil, fmt.Errorf("follower stopped")
+								default:
+								}
+								switch atomic.LoadInt32(&n.noQuery) {
+								case 1:
+									return nil, fmt.Errorf("follower unavailable")
+								case 2: // slower than the leader is willing to wait
+									select {
+									case <-time.After(6 * time.Second):
+									case <-ctx.Done():
+									}
+									return nil, fmt.Errorf("follower too slow")
+								}
+								return query(ctx, sqlString, isSubQuery, subQueryResults, unflat, onFields, onRow, onFlatRow)
+							})
+						wait:
+							for {
+								select {
+								case <-used:
+									break wait
+								case <-stopReg:
+									return
+								case <-time.After(200 * time.Millisecond):
+									// the leader this handler was registered with may have been closed: register again
+									if c.leaderAt(li) != leader {
+										break wait
+									}
+								}
+							}
 						}
-					}
-				}()
+					}()
+				}
 			}
 		},
 	})
@@ -163,10 +301,20 @@ func (c *cluster) openFollower(n *cnode) error {
 	return nil
 }
 
-func startCluster(dir string, t *jTable, P int, replicas int, partBy []string) (*cluster, error) {
-	c := &cluster{dir: dir, t: t, partBy: partBy, P: P}
-	if err := c.openLeader(); err != nil {
-		return nil, err
+func (c *cluster) stopFollower(n *cnode) {
+	if n.db != nil {
+		close(n.stopReg)
+		n.db.Close()
+		n.db = nil
+	}
+}
+
+func startClusterL(dir string, t *jTable, P int, replicas int, partBy []string, L int, extra map[string]*zenodb.TableOpts) (*cluster, error) {
+	c := &cluster{dir: dir, t: t, partBy: partBy, P: P, L: L, extraTables: extra}
+	for i := 0; i < L; i++ {
+		if err := c.openLeaderAt(i); err != nil {
+			return nil, err
+		}
 	}
 	var wg sync.WaitGroup
 	errs := make(chan error, P*replicas)
@@ -192,21 +340,31 @@ func startCluster(dir string, t *jTable, P int, replicas int, partBy []string) (
 	return c, nil
 }
 
+func startCluster(dir string, t *jTable, P int, replicas int, partBy []string) (*cluster, error) {
+	return startClusterL(dir, t, P, replicas, partBy, 1, nil)
+}
+
 func (c *cluster) close() {
 	for _, n := range c.followers {
-		if n.db != nil {
-			close(n.stopReg)
-			n.db.Close()
-		}
+		c.stopFollower(n)
 	}
-	if c.leader != nil {
-		c.leader.Close()
+	for i := range c.leaders {
+		c.closeLeaderAt(i)
 	}
 }
 
-// expectedFor returns how many of the points the leader offers to partition p of table t.
+// routed returns the partition the leader routes the point to under table t's partition keys.
 func (c *cluster) routed(p *jPoint) int {
-	return c.leader.VerifPartitionFor(p.goDims(), c.partBy)
+	return c.routedBy(p, c.partBy)
+}
+
+func (c *cluster) routedBy(p *jPoint, partBy []string) int {
+	for _, l := range c.leaders {
+		if l != nil {
+			return l.VerifPartitionFor(p.goDims(), partBy)
+		}
+	}
+	panic("no leader is up")
 }
 
 // waitFollowers waits until every follower has processed the number of entries routed to its partition
@@ -238,7 +396,11 @@ func (c *cluster) waitFollowers(expected map[int]int64, timeout time.Duration) e
 }
 
 func (c *cluster) advanceClocks(t time.Time) {
-	c.leader.VerifAdvanceClock(t)
+	for _, l := range c.leaders {
+		if l != nil {
+			l.VerifAdvanceClock(t)
+		}
+	}
 	for _, n := range c.followers {
 		if n.db != nil {
 			n.db.VerifAdvanceClock(t)
